@@ -1,10 +1,16 @@
 #!/bin/bash
-# tools/sweep.sh <tier> <seed>... : run every check at the tier for each seed; print one line per check.
+# tools/sweep.sh <tier> <seed>... : run every check at the tier for each seed; one line per check.
+# Under `vp run --with-repo` the snapshot of /repo ($VP_RUN_REPO) is used, so that edits to /repo
+# made meanwhile (mutant evaluation) do not leak into the sweep.
 tier=$1; shift
+if [ -n "$VP_RUN_REPO" ] && [ "$(readlink -f .)" != "/verif" ]; then
+  GOFLAGS=-mod=mod GOPROXY=off GOSUMDB=off GOTOOLCHAIN=local /opt/veriftools/go1.26.8/bin/go mod edit -replace github.com/gobwas/ws=$VP_RUN_REPO
+  echo "sweep: using repo snapshot $VP_RUN_REPO ($(git -C $VP_RUN_REPO rev-parse --short HEAD))"
+fi
 for seed in "$@"; do
   for p in C04 C05 C06 C07 C08 C11 C12 C13 C16 C17 C18 C19 C20; do
     out=$(VERIF_SEED=$seed ./check $p $tier 2>&1); rc=$?
     echo "seed=$seed $p rc=$rc $(echo "$out" | grep -E '^verif: C' | cut -c1-170)"
-    echo "$out" | grep -E '^(violation|VIOLATION|KNOWN|verif: (harness|worker|violation))' | cut -c1-400 | head -5
+    echo "$out" | grep -E '^(violation|VIOLATION|KNOWN|verif: (harness|worker|violation|replay))' | cut -c1-400 | head -5
   done
 done
